@@ -2,6 +2,12 @@
 
 package structs
 
+import (
+	"time"
+
+	lru "github.com/hashicorp/golang-lru"
+)
+
 // VerifC08Lens reports how many parsed policies and compiled authorizers the caches hold
 // (C08 harness: cache contents are part of the state compared with the model).
 func (c *ACLCaches) VerifC08Lens() (parsed int, authorizers int) {
@@ -15,4 +21,31 @@ func (c *ACLCaches) VerifC08Lens() (parsed int, authorizers int) {
 		authorizers = c.authorizers.Len()
 	}
 	return
+}
+
+// VerifC08Age makes every identity / policy / role cache entry older by d — a controllable clock
+// for the C08 harness (the caches read time.Now directly; nothing else in resolution depends on time).
+func (c *ACLCaches) VerifC08Age(d time.Duration) {
+	if c == nil {
+		return
+	}
+	for _, cache := range []*lru.TwoQueueCache{c.identities, c.policies, c.roles} {
+		if cache == nil {
+			continue
+		}
+		for _, k := range cache.Keys() {
+			raw, ok := cache.Peek(k)
+			if !ok {
+				continue
+			}
+			switch e := raw.(type) {
+			case *IdentityCacheEntry:
+				e.CacheTime = e.CacheTime.Add(-d)
+			case *PolicyCacheEntry:
+				e.CacheTime = e.CacheTime.Add(-d)
+			case *RoleCacheEntry:
+				e.CacheTime = e.CacheTime.Add(-d)
+			}
+		}
+	}
 }
